@@ -261,7 +261,7 @@ class Creators:
         "Cannot add instance of incompatible line type "+
         str(type(gfa_line)))
     if gfa_line.record_type == "H":
-      if self._vlevel > 0 and gfa_line.VN and gfa_line.VN != "1.0":
+      if gfa_line.VN and gfa_line.VN != "1.0":
         raise gfapy.VersionError(
           "Header line specified wrong version ({})\n".format(gfa_line.VN)+
           "Line: {}\n".format(gfa_line)+
@@ -316,7 +316,7 @@ class Creators:
         "Cannot add instance of incompatible line type "+
         str(type(gfa_line)))
     if gfa_line.record_type == "H":
-      if self._vlevel > 0 and gfa_line.VN and gfa_line.VN != "2.0":
+      if gfa_line.VN and gfa_line.VN != "2.0":
         raise gfapy.VersionError(
           "Header line specified wrong version ({})\n".format(gfa_line.VN)+
           "Line: {}\n".format(gfa_line)+
